@@ -150,6 +150,12 @@ func (l *listener) Accept(ctx context.Context) (transport.PeerConn, error) {
 	simrt.Yield()
 	for {
 		if l.closed {
+			// The agent's accept loop retries immediately on error until the
+			// agent stops, also after its listener was closed for sleep mode (a
+			// busy loop on a real listener). A goroutine that is always runnable
+			// would keep the fake clock from advancing, so a failed Accept on a
+			// closed listener costs 50 ms of simulated time.
+			simrt.Sleep(50 * time.Millisecond)
 			return nil, errors.New("listener closed")
 		}
 		if len(l.queue) > 0 {
